@@ -69,6 +69,12 @@ def parseEdges? (s : String) : Option Graph :=
     | [a, b] => do pure ((← parseReg? a), (← parseReg? b))
     | _ => none) s
 
+/-- `a=b,a=b,…` (register pairs, e.g. the renaming of coalescing) -/
+def parseEdges'? (s : String) : Option (List (Reg × Reg)) :=
+  parseList? (fun t => match t.splitOn "=" with
+    | [a, b] => do pure ((← parseReg? a), (← parseReg? b))
+    | _ => none) s
+
 /-- `v=k,v=k,…` -/
 def parseAssign? (s : String) : Option (List (Reg × Nat)) :=
   parseList? (fun t => match t.splitOn "=" with
